@@ -57,18 +57,14 @@ type World struct {
 	// Deliver, if set, is called for every message a node sends (two-node runs).
 	Deliver func(from, to string, msgType int, payload []byte)
 	// Labels for canonicalisation: random strings in first-seen order.
-	labels   map[string]string
-	labelSeq map[string]int
 }
 
 func New() *World {
 	w := &World{
-		Epoch:    time.Now(),
-		LN:       map[string]*LNNode{},
-		Faults:   map[string][]int{},
-		PayPlan:  map[string][]PayOutcome{},
-		labels:   map[string]string{},
-		labelSeq: map[string]int{},
+		Epoch:   time.Now(),
+		LN:      map[string]*LNNode{},
+		Faults:  map[string][]int{},
+		PayPlan: map[string][]PayOutcome{},
 	}
 	w.Btc = newChain(w, "btc", 3)
 	w.Lbtc = newChain(w, "lbtc", 2)
@@ -99,21 +95,28 @@ func (w *World) recordLocked(o Obs) {
 	w.Log = append(w.Log, o)
 }
 
-// Label maps a random string (id, key, hash, txid, invoice) to a canonical
-// label in first-seen order, so that state keys do not depend on randomness.
-func (w *World) Label(class, s string) string {
+// Labeler maps random strings (ids, keys, hashes, txids, invoices) to
+// canonical labels in first-seen order.  One Labeler lives for exactly one
+// state-key computation, whose traversal order is deterministic, so keys do
+// not depend on randomness nor on when earlier keys were computed.
+type Labeler struct {
+	labels map[string]string
+	seq    map[string]int
+}
+
+func NewLabeler() *Labeler { return &Labeler{labels: map[string]string{}, seq: map[string]int{}} }
+
+func (l *Labeler) Label(class, s string) string {
 	if s == "" {
 		return ""
 	}
-	w.mu.Lock()
-	defer w.mu.Unlock()
-	if l, ok := w.labels[s]; ok {
-		return l
+	if v, ok := l.labels[s]; ok {
+		return v
 	}
-	w.labelSeq[class]++
-	l := fmt.Sprintf("%s%d", class, w.labelSeq[class])
-	w.labels[s] = l
-	return l
+	l.seq[class]++
+	v := fmt.Sprintf("%s%d", class, l.seq[class])
+	l.labels[s] = v
+	return v
 }
 
 // ShouldFail consumes one call of node/method from the fault plan.
